@@ -759,4 +759,27 @@ def replay_quote(rp):
     return dict(reproduced=False)
 
 
-REPLAY = {"kind": replay_kind, "slot": replay_slot, "table": replay_table, "quote": replay_quote}
+def _c04r(name):
+    def r(rp):
+        from suites import c04
+        return c04.REPLAY[name](rp)
+    return r
+
+
+REPLAY = {"kind": replay_kind, "slot": replay_slot, "table": replay_table, "quote": replay_quote,
+          "fstr": _c04r("fstr"), "fstr-backslash": _c04r("fstr-backslash"), "nest": _c04r("nest"), "const": _c04r("const")}
+
+
+# f-string kinds: their template/coverage/slot obligations live in suites/c04.py (literal
+# fidelity) and count for C03 too (the tree must round-trip, conversion and spec included)
+def _c04(name):
+    def g(R, tier):
+        from suites import c04
+        getattr(c04, name)(R, tier)
+    return g
+
+
+GROUPS["kind:Constant"] = _c04("g_constant")
+GROUPS["kind:JoinedStr"] = _c04("g_joinedstr")
+GROUPS["kind:FormattedValue"] = _c04("g_formattedvalue")
+GROUPS["fstring-nesting"] = _c04("g_nesting")
